@@ -388,7 +388,15 @@ func TestC15(t *testing.T) {
 			rt, rd, rerr := refDecode(bin)
 			h2 := &hash.Hash{}
 			var uerr error
-			if p := enum.Try(func() { uerr = h2.UnmarshalVT(bin) }); p != nil {
+			if p := enum.Try(func() {
+				// decode from a buffer the caller owns and overwrites afterwards:
+				// the decoded hash must own its bytes
+				own := append([]byte{}, bin...)
+				uerr = h2.UnmarshalVT(own)
+				for i := range own {
+					own[i] = 0xAA
+				}
+			}); p != nil {
 				run.Violation("panic/unmarshal", fmt.Sprintf("UnmarshalVT panicked on the encoding of %s: %v", key, p), key)
 				continue
 			}
